@@ -142,8 +142,9 @@ impl Scenario for C19Des {
       &["executor (sim, via VerifSharedScheduler)", "timer (sim, via NEW_TIMER_FN)", "clock (virtual)"],
     )
   }
-  fn generate(&self, rng: &mut Rng, _tier: Tier) -> Value {
-    let n = rng.range(1, 4);
+  fn generate(&self, rng: &mut Rng, tier: Tier) -> Value {
+    let deep = deepen(rng, tier);
+    let n = rng.range(1, 4 * deep);
     let mut tasks = Vec::new();
     for _ in 0..n {
       let kind = match rng.below(6) {
@@ -157,7 +158,7 @@ impl Scenario for C19Des {
       tasks.push(TaskSpec { kind, delay_us });
     }
     let mut acts = Vec::new();
-    let len = rng.range(4, 24);
+    let len = rng.range(4, 24 * deep);
     let mut scheduled = 0;
     for _ in 0..len {
       let a = match rng.weighted(&[3, 6, 3, 3, 3, 3, 2]) {
